@@ -1004,6 +1004,9 @@ func opC10Rand(raw json.RawMessage, o *Out) {
 			rec.emit(reg, c10CapWits(cp, rnd))
 		case "cell":
 			id := c10RandCellID(rnd)
+			if it < 6 {
+				id = s2.CellIDFromFace(it) // every face cell: level 0 has a code path of its own per face
+			}
 			cell := s2.CellFromCellID(id)
 			reg := &c10Region{kind: "cell", cls: c10CellCls(id.Level()), rect: cell.RectBound(), capb: cell.CapBound(),
 				cov: cell.CellUnionBound(), own: cell.ContainsPoint, desc: fmt.Sprintf("cell %s (face %d level %d)", id.ToToken(), id.Face(), id.Level())}
